@@ -8,5 +8,5 @@ git -C /repo worktree add --detach "$d" HEAD >/dev/null 2>&1
 cp -p /repo/src/gambit/_cython/*.so /repo/src/gambit/_cython/*.c "$d/src/gambit/_cython/"
 mkdir -p "$d/tests/data/testdb_210818/queries/genomes"
 cp -rp /repo/tests/data/testdb_210818/queries/genomes/. "$d/tests/data/testdb_210818/queries/genomes/" 2>/dev/null || true
-if [ -n "$2" ]; then git -C "$d" apply "$2"; fi
+if [ -n "$2" ]; then git -C "$d" apply "$(readlink -f "$2")"; fi
 echo "$d"
